@@ -13,10 +13,14 @@ literals blanked, everything from the file-level `#[cfg(test)]` on dropped) for
   cast     `as <integer type>`                          (silent truncation feeding a size)
   alloc    `with_capacity( vec![ .reserve( .resize( .repeat( .to_vec() .to_owned() String::from_utf16 .collect::<Vec`
   copy     `copy_from_slice clone_from_slice split_at( chunks( chunks_exact( step_by( .remove( .swap_remove( .drain( from_u32( from_u64( ..`
+  call     calls that panic on some argument: `Range::new(` (range_map: "Ranges must be ordered") `.swap( .copy_within( .pow( .abs( from_str_radix( ..`
+  recursion a fn that calls itself by name (`name(`, `Self::name(`, `self.name(`): depth from the file
   unsafe   `unsafe`
   bound    binary `< > <= >=`                           (the inequality of every bounds test: an off-by-one edit changes the digest)
+  eq       binary `== !=`, `.is_empty() .is_none() .is_some()`  (zero / emptiness guards)
+  return   `return` / `break` / `continue`              (the early exits the guards lead to)
   loop     `for` / `while` / `loop`                     (trip count)
-  guard    `checked_* saturating_* wrapping_* overflowing_* ensure_count_in_bound location_slice .get( .get_mut( .min( .take( try_from try_into`
+  guard    `checked_* saturating_* wrapping_* overflowing_* ensure_count_in_bound location_slice .get( .get_mut( .min( .max( .take( .unwrap_or*( .map_or( try_from try_into`
            (the defences: a guard that DISAPPEARS is as interesting as a trap site that appears)
 Each site gets the key  <file>|<impl type>::<fn>|<kind>  ; sites are grouped by key, and a group is pinned by
 (count, digest of the whitespace-normalised source lines of its sites).  coq/C01/Sites.v is the maintained table:
@@ -223,10 +227,14 @@ PATTERNS = [
     ("alloc", re.compile(r"\b(with_capacity|reserve|reserve_exact|resize|resize_with|repeat|to_vec|to_owned|into_owned|extend_from_slice|from_utf16|from_utf16_lossy)\s*\(|\bvec!|collect::<\s*(?:Vec|String|HashMap|BTreeMap)")),
     ("copy", re.compile(r"\b(copy_from_slice|clone_from_slice|split_at|split_at_mut|chunks|chunks_exact|windows|step_by|remove|swap_remove|drain|split_off|rotate_left|rotate_right|"
                         r"from_u8|from_u16|from_u32|from_u64|from_i32|from_i64|from_usize|from_bits_truncate|from_utf8_unchecked|from_raw_parts|transmute|set_len)\s*\(")),
+    ("call", re.compile(r"\b(Range::new|RangeMap::try_from_iter|from_str_radix|from_secs_f32|from_secs_f64|from_digit|Layout::from_size_align)\s*\(|"
+                        r"\.(swap|copy_within|pow|abs|div_euclid|rem_euclid|ilog2|ilog10|next_power_of_two|insert_str|split_at_checked|borrow_mut|elapsed|duration_since)\s*\(")),
     ("unsafe", re.compile(r"\bunsafe\b")),
     ("bound", re.compile(r"(?<=[\w\)\]\?]) (<|>|<=|>=) (?=[\w\(\-\*&!])")),
+    ("eq", re.compile(r"(?<=[\w\)\]\?]) (==|!=) (?=[\w\(\-\*&!])|\.is_empty\(\)|\.is_none\(\)|\.is_some\(\)")),
+    ("return", re.compile(r"\breturn\b|\bbreak\b|\bcontinue\b")),
     ("loop", re.compile(r"\b(for\s+[\w\(&][^;{]*?\bin\b|while\b|loop\s*\{)")),
-    ("guard", re.compile(r"\b(checked_\w+|saturating_\w+|wrapping_\w+|overflowing_\w+|ensure_count_in_bound|location_slice|try_from|try_into)\s*\(|\.(get|get_mut|min|take|first|last|split_first|split_last|strip_prefix|strip_suffix)\s*\(")),
+    ("guard", re.compile(r"\b(checked_\w+|saturating_\w+|wrapping_\w+|overflowing_\w+|ensure_count_in_bound|location_slice|try_from|try_into)\s*\(|\.(get|get_mut|min|max|clamp|take|first|last|split_first|split_last|strip_prefix|strip_suffix|unwrap_or|unwrap_or_default|unwrap_or_else|map_or)\s*\(")),
 ]
 CAMEL = re.compile(r"[A-Z][a-z]")
 
@@ -296,6 +304,20 @@ def scan_file(repo, rel):
             l = line_of[pos]
             norm = " ".join(lines[l - 1].split())
             sites.append({"key": "%s|%s|%s" % (short, scope, kind), "file": rel, "line": l, "text": norm, "kind": kind, "scope": scope, "short": short})
+    # recursion: a call of the innermost enclosing fn's own name
+    for m in re.finditer(r"(?<![\w.:])(?:Self::|self\.)?([a-z_]\w*)\s*\(", text):
+        pos = m.start()
+        if pos in skip:
+            continue
+        impl, fn = owner[pos] or ("", "<top>")
+        inner = fn.split(".")[-1]
+        if inner != m.group(1) or fn == "<top>" or fn.startswith("macro!"):
+            continue
+        if re.search(r"\bfn\s+$", text[max(0, pos - 12):pos]):
+            continue        # the definition itself
+        scope = (impl + "::" if impl else "") + fn
+        l = line_of[pos]
+        sites.append({"key": "%s|%s|recursion" % (short, scope), "file": rel, "line": l, "text": " ".join(lines[l - 1].split()), "kind": "recursion", "scope": scope, "short": short})
     return sites
 
 
@@ -351,6 +373,11 @@ COVERED = [
     (r"minidump\.rs\|Minidump::(read|read_inner|get_raw_stream|get_stream)$", "c01_header_total"),
     (r"minidump\.rs\|MinidumpThread::(context|stack_memory)$", "c01_thread_contexts_print_total"),
     (r"context\.rs\|MinidumpContext::read$", "c01_no_panic"),
+    (r"minidump\.rs\|(MinidumpMemoryBase|MinidumpMemoryInfo|MinidumpModule|MinidumpUnloadedModule|MinidumpLinuxMapInfo|UnifiedMemory)::memory_range$", "c01_memory_range_sound"),
+    (r"minidump\.rs\|MinidumpThread::last_error$", "c01_last_error_in_bounds"),
+    (r"minidump\.rs\|MinidumpException::get_crash_address$", "c01_crash_address_total"),
+    (r"minidump\.rs\|read_debug_id$", "c01_elf_debug_id_reads"),
+    (r"minidump\.rs\|(MinidumpThread::print|MinidumpMemoryBase::print_contents)$", "c01_print_sites_total"),
 ]
 # harness step (harness/src/bin/c01.rs) that reaches a scope which is not modelled
 STEP = [
@@ -376,13 +403,15 @@ STEP = [
 ]
 SAFE_KIND = {
     "guard": "a defence, pinned so that its removal is flagged",
+    "eq": "an equality / emptiness test (cannot trap), pinned so that a dropped zero-guard is flagged",
+    "return": "an early exit (cannot trap), pinned so that a dropped guard is flagged",
 }
 
 
 def classify(key, kind, grp):
     fs = key.rsplit("|", 1)[0]
-    if kind == "guard":
-        return ("Safe", SAFE_KIND["guard"])
+    if kind in SAFE_KIND:
+        return ("Safe", SAFE_KIND[kind])
     if kind == "cast" and all(re.search(r"\bas (u64|u128|i64|i128)\b", s["text"]) and not re.search(r"\bas (u8|u16|u32|usize|i8|i16|i32|isize)\b", s["text"]) for s in grp):
         return ("Safe", "casts to a 64-bit or wider type only (no truncation feeding a size)")
     for rx, thm in COVERED:
